@@ -4,6 +4,7 @@ from __future__ import annotations
 from .. import astdump, core, qeval, qgen, qpool
 
 LEVEL = "proof"
+READY = True
 CLAIM = {
     "text": "Lean theorems for EVERY valid token configuration (distinct, non-overlapping spellings, multi-character and prefix-related included): the lexer model splices the "
             "environment tokens longest-first, so the rendered tokens of a configuration lex back to the same token kinds as the default rendering lexes under the default "
